@@ -56,6 +56,8 @@ class Event:
 def decode(val, decl, ns, log, guards_cb, name="v"):
     if isinstance(decl, str):
         if decl in ("int", "bool", "str", "real", "any"):
+            if val is None:
+                return {"int": 0, "bool": False, "str": "", "real": 0.0, "any": None}[decl]
             return val
         if decl == "bytes":
             return _bytes(val)
@@ -74,6 +76,8 @@ def decode(val, decl, ns, log, guards_cb, name="v"):
         return out if kind == "list" else tuple(out)
     if kind == "obj":
         cls = import_class(decl[1])
+        if getattr(cls, "__abstractmethods__", None):
+            cls = type(cls.__name__ + "Concrete", (cls,), {m: (lambda self, *a, **k: None) for m in cls.__abstractmethods__})
         o = object.__new__(cls)
         fields = val.get("fields", {}) if isinstance(val, dict) else {}
         for fname, fdecl in decl[2].items():
@@ -83,7 +87,10 @@ def decode(val, decl, ns, log, guards_cb, name="v"):
         cls = import_class(decl[1])
         return cls(*[decode(v, d, ns, log, guards_cb) for v, d in zip(val["items"], decl[2])])
     if kind == "opt":
-        return None if val is None else decode(val, decl[1], ns, log, guards_cb)
+        inner = decl[1]
+        if val is None and not (isinstance(inner, tuple) and inner[0] in ("callable", "effect")):
+            return None
+        return decode(val, inner, ns, log, guards_cb)
     if kind == "expr":
         return eval(decl[1], ns)  # noqa: S307
     if kind == "oneof":
@@ -101,6 +108,19 @@ def decode(val, decl, ns, log, guards_cb, name="v"):
         return {_hashable(decode(k, decl[1], ns, log, guards_cb)): decode(v, decl[2], ns, log, guards_cb) for k, v in items}
     if kind == "effect":
         return Recorder(decl[1], decl[2], log, guards_cb)
+    if kind == "callable":
+        nm = decl[1]
+
+        def probe(*a, **k):
+            ev = Event(nm, a, k)
+            log.append(ev)
+            guards_cb(ev)
+            return None
+        return probe
+    if kind == "anylist":
+        return [decode(None, decl[2], ns, log, guards_cb) for _ in range(decl[1])]
+    if kind == "any":
+        return val
     if kind == "logger":
         lg = logging.getLogger("pyvc-replay")
         lg.disabled = True
@@ -113,6 +133,8 @@ def _hashable(v):
 
 
 def _bytes(val):
+    if val is None:
+        return b""
     if isinstance(val, dict) and "__bytes__" in val:
         return bytes.fromhex(val["__bytes__"])
     if isinstance(val, list):
@@ -152,6 +174,22 @@ def main(path):
               calls=lambda name: [e for e in log if e.name == name or e.name.endswith("." + name)],
               trace=lambda: list(log))
     model = rec["model"] or {}
+    # assumed contracts (stubs) are applied natively as well: the stubbed function returns a default of its declared type
+    for key, st in contract.get("stubs", {}).items():
+        rel, qual = key.split("::")
+        parts = qual.split(".")
+        owner = import_class(f"{rel}::{'.'.join(parts[:-1])}") if len(parts) > 1 else importlib.import_module(rel[:-3].replace("/", "."))
+        ret = st.get("returns")
+
+        def stub(*a, _ret=ret, _ev=st.get("event"), **k):
+            if _ev:
+                ev = Event(_ev, a, k)
+                log.append(ev)
+                guards_cb(ev)
+            if _ret is None or isinstance(_ret, str):
+                return {"int": 0, "bool": False, "bytes": b"", "str": "", "real": 0.0}.get(_ret)
+            return decode(None, _ret, ns, log, guards_cb)
+        setattr(owner, parts[-1], stub)
     for vname, decl in contract["vars"].items():
         ns[vname] = decode(model.get(vname), decl, ns, log, guards_cb, vname)
     out = {"reproduced": False, "failed": [], "inputs": {k: repr(ns[k])[:200] for k in contract["vars"]}}
